@@ -29,6 +29,46 @@ CLAIMS["C02"] = {
             "it does not enumerate crash images. " + _TB,
 }
 
+CLAIMS["C03"] = {
+    "text": "Decides the process-crash clauses of C03 on every feasible path: the log record reaches write(2) before the "
+            "memtable insert and before any follower is acknowledged; recovery replays a log iff number >= log_number or "
+            "== prev_log_number (guard equivalence in both directions), in ascending order (comparator sign analysis), "
+            "marks each replayed number, folds max sequence; logs are retired in an edit only after the flush that emptied "
+            "them succeeded; the memtable switch is one critical section; reused logs/MANIFESTs are appended at their "
+            "measured length. It does not decide equality of the recovered state with the fold of batches.",
+    "design_ref": "DESIGN.md 5/C03",
+    "technique": "static analysis: path-sensitive call-order automata, guard equivalence over branch edges, comparator ordering analysis on the clang CFG",
+    "note": "Necessary conditions only. " + _TB,
+}
+CLAIMS["C04"] = {
+    "text": "Decides the atomicity clauses of C04: one log record per commit group, fed from the same batch object that is "
+            "inserted; the visible sequence number is published only after the memtable insert and after the relock "
+            "(never between allocation and insert); LDB_OK from batch decoding requires the entry count to match; the log "
+            "reader delivers a logical record only complete (FULL, or LAST inside a started record) and discards partial "
+            "state on a bad fragment. Atomicity as observed in a concrete concurrent history is not decided.",
+    "design_ref": "DESIGN.md 5/C04",
+    "technique": "static analysis: event-order automata over all feasible CFG paths and guard dominance; compile-time witness for the batch header",
+    "note": "Necessary conditions only. " + _TB,
+}
+CLAIMS["C05"] = {
+    "text": "Decides the recovery clauses of C05: a torn log tail is end-of-file and never reported as corruption; the "
+            "missing-file error is raised only for a really expected file and replay starts only with a complete file "
+            "set; after a failed recover nothing is applied, scheduled or garbage-collected and the handle is destroyed; "
+            "replay errors are ignored only with paranoid_checks off. That every crash image opens is not decided.",
+    "design_ref": "DESIGN.md 5/C05",
+    "technique": "static analysis: guard dominance and exit automata on the clang CFG of the recovery path",
+    "note": "Necessary conditions only; MANIFEST/CURRENT ordering is decided under C02, replay set and counters under C03. " + _TB,
+}
+CLAIMS["C15"] = {
+    "text": "Decides the framing clauses of C15: log-format constants (compile-time witnesses), header byte offsets and CRC "
+            "coverage of writer and reader against the standard layout, mask/unmask inverse rotations, block switch at "
+            "fewer than 7 bytes, fragment typing from (begin,end), torn tail = EOF without report, reassembly returns. "
+            "Byte-for-byte equality with a reference encoder for all inputs and resynchronisation are not decided.",
+    "design_ref": "DESIGN.md 5/C15",
+    "technique": "static analysis: _Static_assert witnesses, writer/reader sibling agreement on expression shape, guard dominance on the clang CFG",
+    "note": "Necessary conditions only. " + _TB,
+}
+
 _PENDING = ("check not built yet in this revision; the property is listed here so that it is not claimed "
             "without machinery (see DESIGN.md for the planned rules)")
 
